@@ -1,6 +1,8 @@
 (* Properties.v - the property theorems and nothing else.  Every theorem is
    closed by [exact <lemma>] and followed by Print Assumptions. *)
-From NTRIP Require Import Base Bits BitsProofs Crc CrcProofs Time Classify Frame FrameSpec FrameProofs Html Queue QueueProofs ClassifyProofs Retry RetryProofs TimeSpec History WriteProofs EncProofs TimeProofs SegProofs.
+From NTRIP Require Import Base Bits BitsProofs Crc CrcProofs Time Classify Frame FrameSpec FrameProofs Html Queue QueueProofs ClassifyProofs Retry RetryProofs TimeSpec History WriteProofs EncProofs TimeProofs SegProofs Msm Station StationProofs Range RangeProofs FloatProofs.
+From Coq Require Import Reals Floats.
+From Flocq Require Import Core IEEE754.BinarySingleNaN IEEE754.PrimFloat.
 From NTRIPGen Require Import ClassifyTable.
 
 (* ===================== C14 ===================== *)
@@ -309,3 +311,100 @@ Proof.
   - exists [211; 0; 19; 62; 208; 2; 12; 10; 88; 246; 126; 253; 63; 255; 237; 41; 121; 12; 239; 94; 128; 227; 229; 56; 76]%N.
     split; [vm_compute; reflexivity|]. split; reflexivity.
 Qed.
+
+(* ===================== C05 (decoding) ===================== *)
+(* For every well-formed 1005 or 1006 message - station id, ITRF year, the three signed 38-bit
+   coordinates over their full range, the reserved bit groups and (1006) the 16-bit antenna
+   height - laid out as the standard says, carried in a frame with any extra payload bytes
+   after it, decoding reproduces every field. *)
+Theorem C05_decode : forall m extra, wf_station m = true -> bytes_ok extra ->
+  (length (bytes_of_bits (station_bits m)) + length extra <= 1023)%nat ->
+  decode_station (st_type m) (station_frame m extra) = Ok m.
+Proof. exact decode_station_roundtrip. Qed.
+Print Assumptions C05_decode.
+
+(* A frame too short for the fields is rejected with an error. *)
+Theorem C05_reject_short : forall (ty : N) (b : list N),
+  (Z.of_nat (8 * length b) - 48 < (if (ty =? 1006)%N then 168 else 152))%Z ->
+  decode_station ty b = Err ErrOverrun.
+Proof. exact decode_station_short. Qed.
+Print Assumptions C05_reject_short.
+
+(* A message of a different type is rejected with an error. *)
+Theorem C05_reject_type : forall b t, (8 * length b >= 216)%nat -> get_u b 24 12 = Ok t ->
+  (t <> 1005%N -> decode1005 b = Err ErrWrongType) /\ (t <> 1006%N -> decode1006 b = Err ErrWrongType).
+Proof. exact decode_station_wrong_type. Qed.
+Print Assumptions C05_reject_type.
+
+(* On arbitrary bytes both decoders return a message of their own type or one of two errors -
+   never a panic (this is also C07 for these decoders). *)
+Theorem C05_total : forall b,
+  ((exists m, decode1005 b = Ok m /\ st_type m = 1005%N) \/ decode1005 b = Err ErrOverrun \/ decode1005 b = Err ErrWrongType) /\
+  ((exists m, decode1006 b = Ok m /\ st_type m = 1006%N) \/ decode1006 b = Err ErrOverrun \/ decode1006 b = Err ErrWrongType).
+Proof. intros b. split; [apply decode1005_total|apply decode1006_total]. Qed.
+Print Assumptions C05_total.
+
+Example C05_example :
+  let m := {| st_type := 1006; st_id := 2; st_itrf := 3; st_ign1 := 0; st_x := (- 2 ^ 37)%Z; st_ign2 := 1;
+              st_y := (2 ^ 37 - 1)%Z; st_ign3 := 2; st_z := (-1)%Z; st_height := 65535 |}%N in
+  wf_station m = true /\ decode1006 (station_frame m [7; 8]%N) = Ok m.
+Proof. cbv zeta. split; vm_compute; reflexivity. Qed.
+
+(* ===================== C05 (display) ===================== *)
+(* For every 38-bit signed coordinate X the double computed by float64(X) * 0.0001 is within
+   1e-8 m of X/10^4, so the nearest value with four decimals - which is what a correctly rounded
+   "%.4f" prints - is exactly the encoded integer times 0.0001 m.  (The 16-bit antenna height is
+   the special case 0 <= X < 2^16.) *)
+Theorem C05_display : forall (X : Z) choice, (- 2 ^ 37 <= X < 2 ^ 37)%Z ->
+  Znearest choice (B2R (Prim2B (coord_m X)) * 10000)%R = X.
+Proof. exact coord_display. Qed.
+Print Assumptions C05_display.
+
+(* ===================== C08 ===================== *)
+(* The scaled aggregates are exactly the standard's sums (the uint64/int64 wraps of the code are
+   harmless on the fields' ranges whenever the true value is non-negative). *)
+Theorem C08_scaled_range : forall w f d, (w < 256)%N -> (f < 1024)%N -> (- 2 ^ 19 <= d < 2 ^ 19)%Z ->
+  (0 <= Z.of_N w * 2 ^ 29 + Z.of_N f * 2 ^ 19 + d)%Z ->
+  Z.of_N (scaled_range w f d) = (Z.of_N w * 2 ^ 29 + Z.of_N f * 2 ^ 19 + d)%Z.
+Proof. exact scaled_range_exact. Qed.
+Print Assumptions C08_scaled_range.
+
+Theorem C08_scaled_phase : forall w f p, (w < 256)%N -> (f < 1024)%N -> (- 2 ^ 23 <= p < 2 ^ 23)%Z ->
+  (0 <= Z.of_N w * 2 ^ 31 + Z.of_N f * 2 ^ 21 + p)%Z ->
+  Z.of_N (scaled_phase w f p) = (Z.of_N w * 2 ^ 31 + Z.of_N f * 2 ^ 21 + p)%Z.
+Proof. exact scaled_phase_exact. Qed.
+Print Assumptions C08_scaled_phase.
+
+Theorem C08_scaled_rate : forall rough fine, (- 2 ^ 13 <= rough < 2 ^ 13)%Z -> (- 2 ^ 14 <= fine < 2 ^ 14)%Z ->
+  scaled_rate rough fine = (rough * 10000 + fine)%Z.
+Proof. exact scaled_rate_exact. Qed.
+Print Assumptions C08_scaled_rate.
+
+(* An MSM4 and an MSM7 cell encoding the same quantity yield the same aggregate. *)
+Theorem C08_msm4_msm7_agree : forall w f d4 p4,
+  agg_range4 w f d4 = agg_range7 w f (d4 * 32) /\ agg_phase4 w f p4 = agg_phase7 w f (p4 * 4).
+Proof. exact msm4_msm7_agree. Qed.
+Print Assumptions C08_msm4_msm7_agree.
+
+(* Invalid markers: an invalid rough range makes the values zero, an invalid fine value falls back
+   to the rough value alone, an invalid rough rate gives zero. *)
+Theorem C08_invalid : forall w f d p rough fine,
+  agg_range4 255 f d = 0%N /\ agg_range7 255 f d = 0%N /\ agg_phase4 255 f p = 0%N /\ agg_phase7 255 f p = 0%N /\
+  (w <> 255%N -> agg_range4 w f (-16384) = scaled_range w f 0 /\ agg_range7 w f (-524288) = scaled_range w f 0 /\
+               agg_phase4 w f (-2097152) = scaled_phase w f 0 /\ agg_phase7 w f (-8388608) = scaled_phase w f 0) /\
+  agg_rate (-8192) fine = 0%Z /\ (rough <> (-8192)%Z -> agg_rate rough (-16384) = scaled_rate rough 0).
+Proof. exact invalid_markers. Qed.
+Print Assumptions C08_invalid.
+
+(* The pseudorange in metres, (float64(S)/2^29) * OneLightMillisecond in binary64, equals
+   c/1000 x S/2^29 with a relative error below 2^-51, for every 41-bit scaled range S > 0. *)
+Theorem C08_range_error : forall S : N, (0 < S < 2 ^ 41)%N ->
+  let exact := (IZR (Z.of_N S) / 536870912 * (299792458 / 1000))%R in
+  (Rabs (B2R (Prim2B (range_m S)) - exact) <= exact / 2251799813685248)%R.
+Proof. exact range_error. Qed.
+Print Assumptions C08_range_error.
+
+Example C08_example :
+  scaled_range 80 512 (-5) = 43218108411%N /\ agg_range4 80 512 7 = agg_range7 80 512 224 /\
+  float_bits (range_m 43218108411) = 4717243441704860898%N.
+Proof. repeat split; vm_compute; reflexivity. Qed.
